@@ -143,6 +143,7 @@ type pairHook struct {
 	vacuous  bool
 	undecod  bool
 	applyErr error
+	probes   map[string]int
 }
 
 // hop sends msg from one party to the other: encode, maybe alter, decode.
@@ -232,6 +233,17 @@ func runECBBOT[G algebra.PrimeGroupElement[G, S], S algebra.PrimeFieldElement[S]
 	r1, err = hop(h, "ecbbot.R1", r1)
 	if err != nil {
 		return pairResult{err: err, errSide: "B", errStage: "ecbbot.R1"}
+	}
+	// A call the library rejects (wrong-length choice vector) must leave the receiver
+	// as it was: the caller corrects its argument and calls again (fault: an invalid
+	// call in the middle of a session).
+	if seed.Sub("rejected-call").U64()%3 == 0 && len(choices) > 1 {
+		if _, _, rerr := rcv.Round2(r1, choices[:len(choices)-1]); rerr == nil {
+			return pairResult{completed: true, corrViolation: "a choice vector of the wrong length was accepted"}
+		}
+		if h.probes != nil {
+			h.probes["rejected_call_then_retry"]++
+		}
 	}
 	r2, ro, err := rcv.Round2(r1, choices)
 	if err != nil {
@@ -600,7 +612,7 @@ func RunPair(rc *harness.RunCtx, proto string) harness.Outcome {
 		return harness.Outcome{Violation: &harness.Violation{Class: class, Site: site, Detail: fmt.Sprintf(f, a...)}, Probes: probes, Params: rc.Params, NonTrivial: true}
 	}
 	// pass 1: honest, recording
-	h0 := &pairHook{log: map[string][]byte{}}
+	h0 := &pairHook{log: map[string][]byte{}, probes: probes}
 	res, cfg, herr := runPairOnce(proto, rc.Seed, h0)
 	if herr != nil {
 		return harness.Outcome{HarnessErr: herr}
